@@ -630,6 +630,41 @@ def _array_or_sequence(repo, res, r3, inv, helpers):
                 told = any(_covers_all_arrays(n) for n in ast.walk(f.node))
                 if not told:
                     bad.append(f"{f.name}: iterates {p_} without telling an (N, D) array from a sequence of D arrays")
+                    continue
+                # ... and the array form is turned into what NumPy makes of it: its D columns (the transpose), a 1-d array
+                # into the one-element sequence [array].  Path-wise: on every path on which the parameter is known to be
+                # an array, its last re-binding before the iteration is `[p]` under `p.ndim == 1` and a transpose otherwise
+                n_arr = 0
+                for pth in enum_paths(f.body):
+                    is_arr, one_d, last = None, None, None
+                    for ev in pth:
+                        if ev[0] == "cond":
+                            for t_, tr_, node_ in path_facts([ev]):
+                                pass
+                            facts_ = path_facts([ev])
+                            for t_, tr_, _n in facts_:
+                                if t_.startswith("isinstance(") and f"({p_}," in t_ and "ndarray" in t_:
+                                    is_arr = tr_
+                                if t_ in (f"{p_}.ndim == 1", f"np.ndim({p_}) == 1"):
+                                    one_d = tr_
+                        elif ev[0] == "stmt" and isinstance(ev[1], ast.Assign) and any(isinstance(t, ast.Name) and t.id == p_ for t in ev[1].targets):
+                            last = ev[1].value
+                        elif ev[0] in ("stmt", "return", "loop") and ev[1] is not None:
+                            node_ = ev[1].iter if ev[0] == "loop" and isinstance(ev[1], ast.For) else ev[1]
+                            if any(isinstance(c, ast.comprehension) and isinstance(c.iter, ast.Name) and c.iter.id == p_ for c in ast.walk(node_)) or (ev[0] == "loop" and isinstance(ev[1], ast.For) and isinstance(ev[1].iter, ast.Name) and ev[1].iter.id == p_):
+                                break
+                    if is_arr is not True:
+                        continue
+                    n_arr += 1
+                    txt = norm(last) if last is not None else None
+                    if one_d is True:
+                        good = txt == f"[{p_}]"
+                    else:
+                        good = txt is not None and (f"{p_}.T" in txt or f"np.transpose({p_})" in txt or f"{p_}.transpose()" in txt)
+                    if not good:
+                        bad.append(f"{f.name}: for an ndarray {p_} ({'1-d' if one_d else 'N x D'}) the sequence handed on is {txt}, not {'[' + p_ + ']' if one_d else 'its columns (' + p_ + '.T)'}")
+                if n_arr == 0:
+                    bad.append(f"{f.name}: no path on which {p_} is known to be an ndarray")
             res.check(not bad, f"{h.key}:{p_}:array-or-sequence", h.fn.where(), f"{t} reads an (N, D) array as N points but a sequence as D coordinate arrays; the handler re-packages `{p_}` by iterating it, which turns an (N, D) unyt_array into the list of its N rows - NumPy then bins a different sample (other counts, other number of axes) than for the bare array", f"the two forms of {p_} told apart before it is iterated", bad, rid=r3)
 
 
@@ -979,5 +1014,7 @@ MUTANTS = [
     Mutant("histogram-live-arm-drops-bins", AF, "_histogram", "            bins=bins,\n            range=range,\n            density=density,\n            weights=np.asarray(weights) if weights is not None else None,\n        )", "            range=range,\n            density=density,\n            weights=np.asarray(weights) if weights is not None else None,\n        )", ("C06-R9",)),
     Mutant("histogram2d-live-arm-drops-weights", AF, "_histogram2d", "            density=density,\n            weights=np.asarray(weights) if weights is not None else None,\n        )", "            density=density,\n        )", ("C06-R9",)),
     Mutant("twin-linspace-kwargs-literal", AF, "_linspace", '        "axis": axis,\n    }', '        "axis": axis,\n    }\n    kwargs = dict(kwargs)', (), benign=True),
+    Mutant("histogramdd-array-not-transposed", AF, "_histogramdd", "sample = [sample] if sample.ndim == 1 else list(sample.T)", "sample = [sample] if sample.ndim == 1 else list(sample)", ("C06-R3",)),
+    Mutant("histogramdd-1d-test-negated", AF, "_histogramdd", "sample = [sample] if sample.ndim == 1 else list(sample.T)", "sample = [sample] if sample.ndim != 1 else list(sample.T)", ("C06-R3",)),
     Mutant("histogramdd-rows-as-coordinates", AF, "_histogramdd", "    if isinstance(sample, np.ndarray):\n        # an (N, D) array holds one point per row, whereas NumPy reads a\n        # sequence as D coordinate arrays: split the array into its columns\n        sample = [sample] if sample.ndim == 1 else list(sample.T)\n", "", ("C06-R3",)),
 ]
